@@ -30,7 +30,7 @@ REQUIRED = ['steps_law_checked', 'scan_thresholds_checked', 'selections_checked'
 def gen_cases(tier, seed):
     q = tier == 'quick'
     out = []
-    n = 1800 if q else 50000
+    n = 1800 if q else 150000
     for k in range(n):
         cs = case_seed(seed, PID, k)
         r = random.Random(cs)
@@ -61,7 +61,7 @@ def gen_cases(tier, seed):
         r4 = random.Random(seed + 4)
         graphs += [dict(g) for g in gen.atlas(4, 4)]
         d4 = [d for d in gen.all_digraphs(4) if d['edges']]
-        graphs += r4.sample(d4, 150)
+        graphs += r4.sample(d4, 500)
     k = 0
     for g in graphs:
         for name in names:
